@@ -2,6 +2,7 @@
 package c06
 
 import (
+	"sync"
 	"bytes"
 	"fmt"
 	"os"
@@ -660,3 +661,123 @@ func saveFuzz(in []byte) string {
 	_ = os.WriteFile(p, in, 0o644)
 	return p
 }
+
+// ---------- concurrent decoding (race-detector build) ----------
+
+type ConcCase struct {
+	Tok        tok.Tok      `json:"tok"`
+	Corr       []Corruption `json:"corr"`
+	Goroutines int          `json:"goroutines"`
+	Rounds     int          `json:"rounds"`
+}
+
+// runConc decodes the honest token and corrupted variants of it from several
+// goroutines at once. Whatever a decoder accepts must, as always, verify
+// independently and equal the input's payload; and the race detector must stay silent.
+func runConc(c *h.Ctx, cc ConcCase) {
+	tk, priv, err := tok.Build(cc.Tok)
+	if err != nil {
+		return
+	}
+	honest, _, err := tk.ToSealed(priv)
+	if err != nil {
+		return
+	}
+	inputs := [][]byte{honest}
+	for _, co := range cc.Corr {
+		if in, _, ok := corrupt(Case{Tok: cc.Tok, C: co}, honest); ok && !bytes.Equal(in, honest) {
+			inputs = append(inputs, in)
+		}
+	}
+	// same-length rewrite of the command under the old signature
+	if i := bytes.Index(honest, []byte("/foo")); i >= 0 {
+		t2 := append([]byte{}, honest...)
+		copy(t2[i:], "/own")
+		inputs = append(inputs, t2)
+	}
+	type verdict struct {
+		verifies bool
+		view     tok.View
+		viewOK   bool
+	}
+	want := make([]verdict, len(inputs))
+	for i, in := range inputs {
+		if e, err := env.Parse(in); err == nil {
+			want[i].verifies = e.Verify() == nil
+			if v, err := e.View(); err == nil {
+				want[i].view, want[i].viewOK = v, true
+			}
+		}
+	}
+	type failure struct{ sig, msg string }
+	fails := make(chan failure, 64)
+	var wg sync.WaitGroup
+	start := make(chan struct{})
+	for g := 0; g < cc.Goroutines; g++ {
+		wg.Add(1)
+		go func(g int) {
+			defer wg.Done()
+			<-start
+			for r := 0; r < cc.Rounds; r++ {
+				for i := range inputs {
+					k := (i + g) % len(inputs)
+					in := inputs[k]
+					for _, d := range cborDecoders[:3] {
+						got, derr := d.f(in)
+						if derr != nil || got == nil {
+							continue
+						}
+						if !want[k].verifies || !want[k].viewOK {
+							select {
+							case fails <- failure{"C06/concurrent/accepted-unverifiable", fmt.Sprintf("%s accepted input %d (of %d) under concurrent decoding although it does not verify independently", d.name, k, len(inputs))}:
+							default:
+							}
+							continue
+						}
+						if v, err := tok.ViewOf(got); err == nil {
+							if diff := tok.Diff(want[k].view, v); diff != "" {
+								select {
+								case fails <- failure{"C06/concurrent/returned-differs-from-input", fmt.Sprintf("%s: %s", d.name, diff)}:
+								default:
+								}
+							}
+						}
+					}
+				}
+			}
+		}(g)
+	}
+	close(start)
+	wg.Wait()
+	close(fails)
+	for f := range fails {
+		c.Fail(f.sig, "%s\ncase %+v", f.msg, cc)
+	}
+	c.P.Class(fmt.Sprintf("concurrent/goroutines=%d", cc.Goroutines))
+	c.P.NonTrivial([]any{"conc", cc.Tok.Kind(), cc.Tok.OptionBitmap(), cc.Tok.Issuer().Alg, cc.Corr, cc.Goroutines}, map[string]any{"mode": "concurrent-decode", "goroutines": cc.Goroutines, "inputs": len(inputs), "rounds": cc.Rounds})
+}
+
+var concProp = h.Define(P, "concurrent", func(t *rapid.T) ConcCase {
+	cc := ConcCase{Tok: tok.Gen(t, tok.GenCfg{Algs: []keys.Alg{keys.Ed25519, keys.Ed25519, keys.P256, keys.Secp256k1}, NoTopNull: true, OnlyFuture: true, Values: val.Cfg{Depth: 1, MaxLen: 2, SafeInts: true, NoFloat: true}}),
+		Goroutines: rapid.IntRange(2, 8).Draw(t, "goroutines"), Rounds: rapid.IntRange(2, 10).Draw(t, "rounds")}
+	if cc.Tok.Dlg != nil {
+		cc.Tok.Dlg.Cmd = "/foo/bar"
+	} else {
+		cc.Tok.Inv.Cmd = "/foo/bar"
+	}
+	fields := dlgFields
+	if cc.Tok.Inv != nil {
+		fields = invFields
+	}
+	n := rapid.IntRange(1, 4).Draw(t, "ncorr")
+	for i := 0; i < n; i++ {
+		if rapid.Bool().Draw(t, "bytelevel") {
+			cc.Corr = append(cc.Corr, Corruption{Kind: rapid.SampledFrom([]string{"bitflip", "subst-not"}).Draw(t, "bk"), Off: rapid.IntRange(0, 4000).Draw(t, "off"), Bit: rapid.IntRange(0, 7).Draw(t, "bit")})
+		} else {
+			cc.Corr = append(cc.Corr, Corruption{Kind: "rewrite", Field: rapid.SampledFrom(fields).Draw(t, "field"), Alt: rapid.IntRange(0, 9).Draw(t, "alt")})
+		}
+	}
+	return cc
+}, runConc)
+
+func TestConcurrentTamper(t *testing.T) { concProp.Check(t) }
